@@ -26,6 +26,7 @@ type DispScenario struct {
 		Hout  string            `json:"hout"`
 		Dec   string            `json:"dec"`
 		Rdec  string            `json:"rdec"`
+		Wret  string            `json:"wret"`
 	} `json:"cfg"`
 	Hooks   [][]string `json:"hooks"`
 	Chooks  [][]string `json:"chooks"`
@@ -87,7 +88,7 @@ func runDisp(rec *Rec, sc *DispScenario, n int) {
 	c := sc.Cfg
 	rec.SetTrace(sc.ID, map[string]interface{}{
 		"mode": "disp", "kind": c.Kind, "route": c.Route, "hout": c.Hout, "dec": c.Dec, "rdec": c.Rdec,
-		"vetopl": c.Veto[0], "vetostage": c.Veto[1], "vkind": c.Vkind,
+		"vetopl": c.Veto[0], "vetostage": c.Veto[1], "vkind": c.Vkind, "wret": c.Wret,
 		"exphooks": flat(sc.Hooks), "expchooks": flat(sc.Chooks),
 		"expinvoked": sc.Invoked, "expreplies": sc.Replies, "expcstat": sc.Cstat, "expdisc": sc.Disc, "expwritten": sc.Written,
 	})
@@ -177,6 +178,9 @@ func runDisp(rec *Rec, sc *DispScenario, n int) {
 		settings = append(settings, erpc.WithBodyCodec('j'))
 	}
 	before := atomic.LoadInt64(&app.Enters)
+	if c.Wret == "late" {
+		a.SetWriteReturnDelay(25 * time.Millisecond)
+	}
 	if c.Kind == "call" {
 		var result interface{} = new(Res)
 		if c.Rdec == "bad" {
